@@ -56,6 +56,8 @@ def main():
                 r2.append("%s: %s" % (c, v2))
             if k2 or k1:
                 how.append("%s %s" % (c, k2 or k1))
+        if meta.get("judgement"):
+            r2.append("judged " + meta["judgement"])
         print("| %s | %s | %s | %s | %s | %s |" % (name, title, "yes" if ok else "NO " + json.dumps(conf)[:60],
                                                  "; ".join(r1) or "-", "; ".join(r2) or "(not needed)", "; ".join(how)))
 
